@@ -7,6 +7,9 @@ def T(qcases, tcases, qbudget=240, tbudget=1500, workers=16):
             "thorough": dict(cases=tcases, budget_s=tbudget, workers=workers)}
 
 PROPS = {
+    "C17": dict(sources=["props/C17.cpp"], jls=True, tiers=T(250, 4000),
+                assumptions=["statistics of original and copy are compared with relative tolerance 1e-9 (same data, same block structure)",
+                             "for unclosed/cut originals the original is dumped after copying (opening repairs it) and must be contained in the copy's dump; a cut source that jls_copy refuses is not judged"]),
     "C14": dict(sources=["props/C14.cpp"], jls=True, mrb_size=1 << 22, tiers=T(300, 5000),
                 assumptions=["the file header written by jls_wr_open is an append (empty file); its rewrite at close is the only other write at offset 0",
                              "a head-table rewrite is the 128-byte payload followed by its 8-byte footer (pad + CRC)"]),
@@ -50,6 +53,10 @@ PROPS = {
 HOOK_COMMITS = ["6203c3e4032b5e35344eee56bc8020982a6abdeb"]
 
 MANIFEST_TEXT = {
+    "C17": dict(
+        technique="differential/round-trip property testing: reader dump of the original vs reader dump of jls_copy's output, plus the independent decoder on the copy",
+        level_text="Generated multi-signal files (all types, offsets, omit toggles, annotations incl. signal 0, UTC, user data up to > 1 MiB), closed, unclosed at an API boundary, or cut at a generated point of the backend write log, are copied; the copy must be a conformant closed file and its dump must equal (closed original) or contain (unclosed original) the original's dump: definitions, lengths, every sample, a statistics battery, annotations, UTC entries, user data. Leaks are caught by LeakSanitizer.",
+        level_note="Trusted: dump.h comparators, decoder.h. Open finding KF-C17-1 (omitted blocks are not reconstructed by jls_copy) is matched per signal: only signals that have omitted blocks in the original may differ."),
     "C14": dict(
         technique="history invariant over the complete backend write log of generated writer programs (in-memory VFS), evaluated against a shadow file and chunk map",
         level_text="Every logged backend write/truncate of every generated program (sync and threaded writer) is classified online: append, 32-byte header rewrite (only bytes 0..15 and 28..31 may differ, CRC valid), head-table rewrite (each changed entry 0 -> offset of an existing chunk of that track/level, followed by a matching footer), or the file header. Anything else - in particular any rewrite of payload bytes, a truncate, or a hole - is a violation with the offending operation index.",
